@@ -29,7 +29,7 @@ CHECKS = {
  "C07": ("shadow-ledger monitor in exact arithmetic, independent of the program's accumulators, settled at every position update",
          "An exact ledger credits each position found in the bank with lp_fee*L_i/L_step for every in-range swap step; at every instruction that settles a position the credited fees must not exceed the ledger and may fall short only by the derived rounding bound. Fee accumulators are seeded anywhere in u128 (incl. just below wrap-around) on empty pools.",
          SVM + "; state seeding of fee_growth_global only on pools without positions or initialised ticks", "DESIGN.md#c07"),
- "C08": ("exact-arithmetic oracle on both implementations of the liquidity<->amount functions (function level) + balance-delta monitor and limit probes on cloned state (instruction level)",
+ "C08": ("exact-arithmetic oracle on both implementations of the liquidity<->amount functions (function level) + balance-delta monitor and limit probes on cloned state for increase / decrease / by-amounts / reposition (instruction level)",
          "The Anchor and the Pinocchio token-delta functions are run on millions of generated (price, range, +-L) cases incl. price on a bound and the shifted-tick state and compared with exact ceil/floor amounts; the liquidity-from-maxima estimate is checked for fit and maximality; in the history workload every increase/decrease/by-amounts is reconciled with the exact amounts and token_max/token_min are probed at x-1/x/x+1 on clones.",
          SVM + "; tick prices come from the program's own conversion (decided by C09)", "DESIGN.md#c08"),
  "C09": ("complete enumeration of all ticks + boundary prices, random interior sample, exact integer oracle (thorough: a stride of the round trip additionally under Miri)",
@@ -51,9 +51,9 @@ CHECKS = {
          "For every successful swap leg on adaptive-fee pools the expected reference (filter/decay/reset), the per-tick-group rate of every step, rate bounds, accumulator cap, stored accumulator, major-swap timestamp, control-factor-zero equivalence and the trade-enable gate are recomputed independently and compared.",
          SVM + "; major-swap threshold judged with a 2e-9 band on log price", "DESIGN.md#c14"),
  "C15": ("fault enumeration at the transaction boundary: every bound account slot x every same-kind account of another pool/mint/position/index/program, executed on cloned state",
-         "For every fund-moving instruction a golden invocation succeeds; every slot the property binds to the named pool is then replaced by every other account of the same kind found in a world of six pools over shared and disjoint mints, two configs and reward vaults holding pool mints (plus pair substitutions position+token account and two-hop pool duplication); each substitution must fail.",
+         "For every fund-moving instruction a golden invocation succeeds; every slot the property binds to the named pool is then replaced by every other account of the same kind found in a world of six pools over shared and disjoint mints, two configs and reward vaults holding pool mints (plus pair substitutions position+token account - funded and empty foreign positions - and two-hop pool duplication); each substitution must fail.",
          SVM + "; bound/free classification of slots written in the harness from the property statement", "DESIGN.md#c15"),
- "C16": ("exact oracle against the token program's own fee function on both implementations (function level) + balance/withheld-amount/event monitor on Token-2022 fee pools (instruction level)",
+ "C16": ("exact oracle against the token program's own fee function on both implementations (function level, incl. a hostile-TLV differential against spl-token-2022's reader, also executed under Miri with full Stacked Borrows and under ASan) + balance/withheld-amount/event monitor on Token-2022 fee pools (instruction level)",
          "Anchor and Pinocchio fee-exclusion/inclusion functions are compared with spl-token-2022's TransferFee::calculate_fee over all fee configurations, epochs around the fee switch and hostile amounts (sum, minimality, round trip, equality of implementations); in histories on fee-bearing pools the vault must receive at least the curve input and pay exactly the curve output, requests must be minimal and within maxima, minima apply to what the owner receives, swap thresholds are probed on clones against what the trader actually receives / pays, and Traded / Liquidity events must equal the amounts moved and withheld.",
          SVM + "; spl-token-2022 8.0.1 is the ground truth for withheld fees", "DESIGN.md#c16"),
  "C17": ("differential execution on cloned state: two-hop vs its two single swaps; negative generation (same pool, non-chaining legs); threshold probes",
